@@ -63,7 +63,12 @@ namespace vh
         {
             close(fds[0]);
             struct rlimit rl;
+            // the sanitizers reserve their shadow memory as address space: no RLIMIT_AS under them (the watchdog stays)
+#if defined(__SANITIZE_ADDRESS__) || defined(__SANITIZE_THREAD__)
+            (void)mem_mb;
+#else
             if (mem_mb) { rl.rlim_cur = rl.rlim_max = mem_mb * 1024 * 1024; setrlimit(RLIMIT_AS, &rl); }
+#endif
             if (stack_mb) { rl.rlim_cur = rl.rlim_max = stack_mb * 1024 * 1024; setrlimit(RLIMIT_STACK, &rl); }
             rl.rlim_cur = rl.rlim_max = 0; setrlimit(RLIMIT_CORE, &rl);
             std::string out;
